@@ -6,6 +6,7 @@
 EXTENDS SeqScan
 AllKinds == {"int", "real", "name", "kw", "str", "hex", "ref", "arr", "dict", "stream", "istream"}
 SomeKinds == {"int", "dict", "istream"}
+MostKinds == {"int", "kw", "str", "ref", "arr", "dict", "stream", "istream"}
 BothTails == {"table", "xrefstm"}
 AllDamages == {"xrefbody", "xrefdata", "startxref"}
 =============================================================================
